@@ -73,7 +73,7 @@ PROPS = {
                    'c12::h_find': ['found', 'not-found']},
     },
     'C13': {
-        'harnesses': ['c13::h_file', 'c13::h_str', 'c13::h_patch', 'c13::h_patch_algs', 'c13::h_names'],
+        'harnesses': ['c13::h_file', 'c13::h_file_algs', 'c13::h_str', 'c13::h_patch', 'c13::h_patch_algs', 'c13::h_names'],
         'covers': {'c13::h_file': ['hard-error', 'hashed'], 'c13::h_str': ['hashed'], 'c13::h_patch': ['line-removed'],
                    'c13::h_names': ['parsed', 'rejected']},
     },
